@@ -58,7 +58,7 @@ class UnixTransport(BaseTransport, scheme="unix"):
         timeout: float | None = None,
         tags: list[str] | None = None,
     ) -> bytes:
-        data = await self.reader.read()
+        data = await asyncio.wait_for(self.reader.read(self.BUFSIZE), timeout)
         t = tags + ["read"] if tags is not None else ["read"]
         logger.trace(data.hex(), extra={"tags": t})
         return data
